@@ -29,7 +29,7 @@ def legal_ident(out: str) -> bool:
     return out not in must
 
 
-def search(repo):
+def _search(repo):
     rc, outp = run_test_module(module_src(), 'verif_replay_k::keywords', repo)
     res = {'cases': 0, 'mismatches': []}
     must = set(KW['strict'] + KW['reserved'])
@@ -49,3 +49,14 @@ def search(repo):
     if res['cases'] == 0:
         res['error'] = outp[-1200:]
     return res
+
+
+_MEMO = {}
+
+
+def search(repo, *a, **kw):
+    """one run of the harness per check process and tree (the result is shared by all obligations it decides)"""
+    key = (repo, a, tuple(sorted(kw.items())))
+    if key not in _MEMO:
+        _MEMO[key] = _search(repo, *a, **kw)
+    return _MEMO[key]
